@@ -168,7 +168,8 @@ def walls_case(draw):
     ys = [[draw(fl(-1.0, 1.0)) for _ in range(n + 1)] for _ in range(3)]
     return dict(n=n, shape=shape, units=units, ys=ys,
                 route=draw(st.sampled_from(["hyperplane", "hyperplane", "subspace", "raw",
-                                            "moved"])),
+                                            "moved"] + (["subspace"] * 3 if n == 2 else []))),
+                line=draw(st.sampled_from(["subspace", "geodesic", "segment", "boundary_arc"])),
                 src=draw(st.sampled_from(["library", "harness_col", "harness_row",
                                           "conjugated"])))
 
@@ -226,7 +227,21 @@ def build_wall(case):
     else:
         S = standard_ideal_points(n)
         data = np.array([(C @ S.T).T for C in Cs]).reshape(shape + (n, n + 1))
-        obj = hyperbolic.Subspace(data.copy())
+        kind = case.get("line", "subspace") if n == 2 else "subspace"
+        if kind == "geodesic":
+            obj = hyperbolic.Geodesic(data.copy())
+        elif kind == "segment":
+            # two interior points of the wall (positive combinations of its ideal points)
+            a, b = data[..., 0, :], data[..., 1, :]
+            obj = hyperbolic.Segment(np.stack([0.3 * a + 0.7 * b, 0.85 * a + 0.15 * b],
+                                              axis=-2))
+        elif kind == "boundary_arc":
+            flat = data.reshape((-1, 2, 3))
+            arcs = [hyperbolic.BoundaryArc(d[i % 2].copy(), d[1 - i % 2].copy())
+                    for i, d in enumerate(flat)]
+            obj = arcs[0] if shape == () else hyperbolic.BoundaryArc(arcs).reshape(shape)
+        else:
+            obj = hyperbolic.Subspace(data.copy())
     return obj, vs, Cs
 
 
@@ -266,6 +281,8 @@ def body_reflection(case, ctx):
     obj, vs, Cs = build_wall(case)
     ctx.check(obj.shape == shape, "wall composite shape", got=obj.shape, want=shape)
     label_case(ctx, case, case["units"], ["route=" + case["route"]])
+    if case["route"] == "subspace" and n == 2:
+        ctx.label("line=" + case.get("line", "subspace"))
     if case["route"] == "subspace":
         # a wall through the origin of the ball has no Poincare sphere; the Subspace route
         # derives its normal from that sphere
